@@ -134,6 +134,21 @@ def run(ctx):
         # looser renderings keep the model/implementation tie honest outside the oracle's domain
         loose = gen.render_chain(chain, r)
         items.append((impl.line_tract_pp(loose, clean), impl.impl_tract_pp(loose, clean), {'op': 'scrub_aliquots', 'text': loose, 'clean_qq': clean}))
+    # bare quarters directly after a half ("E2NENW" -> E½NE¼NW¼), glued or spaced, any number of them
+    for i in range(ctx.budget(300, 8000)):
+        r = rng.fork(700000 + i)
+        h = r.choice(gen.HALVES)
+        qs = [r.choice(gen.QUARTERS) for _ in range(r.range(1, 3))]
+        chain = [h] + qs
+        hsp = r.choice([h + '½', h + '/2', h + '2', h + ' 1/2', gen.HALF_WORD[h] + ' Half'])
+        j = r.choice(['', ' ', ' of ', ' of the ']) if not hsp[-1].isalpha() else r.choice([' ', ' of '])
+        j2 = r.choice(['', ' ', ' of '])
+        text = hsp + j + j2.join(qs)
+        cfg = cfg_for(r).replace('clean_qq', '').strip(',').replace(',,', ',')
+        safely(rep, 'bare_after_half', check_chain, chain, text, cfg)
+        rep.count()
+        rep.nontrivial(text + '|' + cfg)
+        items.append((impl.line_tract_pp(text, False), impl.impl_tract_pp(text, False), {'op': 'scrub_aliquots', 'text': text}))
     # bare quarter: only under clean_qq or directly after a half
     for q in gen.QUARTERS:
         for h in gen.HALVES:
